@@ -246,8 +246,13 @@ impl<'a> PrettyPrinter<'a> {
 }
 
 fn is_ends_with_hashed_expr(mut children: std::slice::Iter<'_, SyntaxNode>) -> bool {
-    children.next_back().is_some_and(|it| it.is::<Expr>())
+    let Some(last) = children.next_back() else {
+        return false;
+    };
+    // The embedded code may also end a nested node, as in `a_#x`.
+    last.is::<Expr>()
         && children
             .next_back()
             .is_some_and(|it| it.kind() == SyntaxKind::Hash)
+        || is_ends_with_hashed_expr(last.children())
 }
